@@ -34,6 +34,7 @@ fn main() {
             let idx: usize = args.get(3).and_then(|s| s.parse().ok()).unwrap_or(0);
             match args[2].as_str() {
                 "c02" => vh::c02::child(idx),
+                "c02w" => vh::c02::child_wide(idx),
                 "c04" => vh::c04::child(idx),
                 "c09s" => vh::c09::child_s(idx),
                 "c10" => vh::c10::child(idx),
@@ -52,7 +53,7 @@ fn main() {
             let r = &v["replay"];
             match r["check"].as_str().unwrap_or("") {
                 "c01" => vh::c01::replay(r),
-                "c02" => vh::c02::replay(r),
+                "c02" | "c02w" => vh::c02::replay(r),
                 "c04" => vh::c04::replay(r),
                 "c09h" | "c09s" => vh::c09::replay(r),
                 "c10" => vh::c10::replay(r),
